@@ -68,6 +68,8 @@ typedef struct {
 static vf_errlog elog;
 static int g_shared_before;	/* run_once: earlier calibration, same kit */
 static double g_merr_nf, g_merr_tr;	/* run_once: measurement-error model */
+static int g_keep_unrelated_params;	/* unrelated calibrations keep their kit */
+static int g_fillers;		/* run_once: parameters made before the set's */
 
 /* small unrelated calibration */
 static int add_unrelated(vnacal_t *vcp, const char *name, int variant)
@@ -84,7 +86,8 @@ static int add_unrelated(vnacal_t *vcp, const char *name, int variant)
 	return -1;
     int ci = vnacal_add_calibration(vcp, name, vnp);
     vnacal_new_free(vnp);
-    cs_delete_params(vcp, &u);
+    if (!g_keep_unrelated_params)
+	cs_delete_params(vcp, &u);	/* else: the other kit stays around */
     return ci < 0 ? -1 : 0;
 }
 
@@ -114,6 +117,9 @@ static void run_once(cs_scenario *sc, int before, int after, int dk,
 	    goto out;
 	}
     }
+    /* parameters of other kits that occupy the low handles */
+    for (int i = 0; i < g_fillers; ++i)
+	(void)vnacal_make_scalar_parameter(vcp, 0.1 + 0.01 * i);
     if (cs_make_params(vcp, sc) != 0) {
 	snprintf(out->why, sizeof(out->why), "make params: %s",
 		elog.count ? elog.msg[0] : "");
@@ -503,6 +509,91 @@ static void run(int tier, long idx, vf_result *r)
 			"added before and %d after", b, a);
 		compare(r, "unrelated", tname, &A, &B, P, what);
 	    }
+	/*
+	 * a set with an unknown reflection used by its first and by its last
+	 * standard, after unrelated calibrations whose kits stay alive: the
+	 * handles of this set are then large and spread
+	 */
+	if (!is16(types[t])) {
+	    static cs_scenario un;
+	    static applied_t UA;
+	    cs_param q;
+	    un = base;
+	    if (un.nstd + 19 <= CS_MAXSTD && un.nparam + 18 <= CS_MAXPARAM) {
+		/*
+		 * parameters: the recipe's, the unknown, 16 more reflects (so
+		 * that the last one's handle is the unknown's plus 16);
+		 * standards: the unknown, the last reflect, the recipe's, the
+		 * other reflects, the unknown again
+		 */
+		int nb = base.nstd, iu = un.nparam;
+		memset(&q, 0, sizeof(q));
+		q.kind = CSP_UNKNOWN; q.handle = -1;
+		q.c0 = 0.35 - 0.45 * I;
+		q.guess_scale = 1.02 * cexp(0.02 * I);
+		un.param[un.nparam++] = q;
+		for (int k = 0; k < 17; ++k) {
+		    memset(&q, 0, sizeof(q));
+		    q.kind = CSP_SCALAR; q.handle = -1;
+		    q.c0 = 0.7 * cexp(I * (0.39 * k + 0.2)) *
+			(0.4 + 0.6 * (k % 4) / 3.0);
+		    un.param[un.nparam++] = q;
+		}
+		un.nstd = 0;
+		/* (the unknown's guess occupies a handle that is freed again,
+		   so either of the last two reflects is 16 above it) */
+		for (int k = 0; k < nb + 19; ++k) {
+		    cs_std *st = &un.std[un.nstd];
+		    int par = -1;
+		    /* second use of the unknown: right after the 8th handle
+		       is registered (the table has just grown), not at the
+		       end, where later growth has spread the bucket again */
+		    int again = nb + 3 + (nb >= 5 ? 0 : 5 - nb);
+		    if (k == 0 || k == again)
+			par = iu;			/* the unknown */
+		    else if (k == 1 || k == 2)
+			par = iu + 15 + k;		/* last two reflects */
+		    else if (k >= nb + 3)
+			par = iu + 1 + (k - nb - 3 - (k > again));
+		    if (par < 0) {
+			*st = base.std[k - 3];
+		    } else {
+			memset(st, 0, sizeof(*st));
+			st->entry = CSE_SINGLE; st->np = 1;
+			st->port[0] = (k == again && rows >= 2 &&
+				cols >= 2) ? 2 : 1;
+			st->sp[0] = par;
+		    }
+		    st->id = 200 + k;
+		    ++un.nstd;
+		}
+		un.noise = noise;
+		run_once(&un, 0, 0, 0, &UA, r);
+		if (vf_verbose)
+		    vf_note("unknown-reuse set: %d standards, %d parameters, rc %d %s", un.nstd, un.nparam, UA.rc, UA.why);
+		if (UA.rc == 0) {
+		    var = un;
+		    g_keep_unrelated_params = 1;
+		    run_once(&var, 3, 0, 0, &B, r);
+		    g_keep_unrelated_params = 0;
+		    compare(r, "unrelated-kits", tname, &UA, &B, P, "a set "
+			    "with an unknown used by its first and last "
+			    "standard, after three unrelated calibrations "
+			    "whose parameters stay alive");
+		    /* every shift of the set's handles by 1..48 */
+		    for (int f = 1; f <= 48 && r->status == VF_OK; ++f) {
+			var = un;
+			g_fillers = f;
+			run_once(&var, 0, 0, 0, &B, r);
+			g_fillers = 0;
+			snprintf(what, sizeof(what), "a set with an unknown "
+				"used by its first and last standard, its "
+				"parameter handles shifted by %d", f);
+			compare(r, "unrelated-kits", tname, &UA, &B, P, what);
+		    }
+		}
+	    }
+	}
 	/* the kit itself is shared: standards given as vector parameters
 	   on their own 7-point grid, used first by another calibration of
 	   the same vnacal_t at other frequencies */
@@ -677,6 +768,8 @@ done:
     cs_vector_wiggle = 0.0;
     g_shared_before = 0;
     g_merr_nf = g_merr_tr = 0.0;
+    g_keep_unrelated_params = 0;
+    g_fillers = 0;
     vf_exec_end(r, mark);
 }
 
